@@ -19,6 +19,8 @@ type xformStep struct {
 	desc string
 	f    func(C3) C3
 	wrap func(render3d.Object) render3d.Object
+	// mirror: the map reverses orientation (negative scale factor, reflecting matrix)
+	mirror bool
 }
 
 func randStep(rng *rand.Rand, allowGeneral bool) xformStep {
@@ -29,20 +31,28 @@ func randStep(rng *rand.Rand, allowGeneral bool) xformStep {
 	switch k := rng.Intn(n); k {
 	case 0:
 		off := model3d.XYZ(rng.NormFloat64(), rng.NormFloat64(), rng.NormFloat64()).Scale(1.5)
-		return xformStep{0, fmt.Sprintf("translate%v", off), off.Add, func(o render3d.Object) render3d.Object { return render3d.Translate(o, off) }}
+		return xformStep{kind: 0, desc: fmt.Sprintf("translate%v", off), f: off.Add, wrap: func(o render3d.Object) render3d.Object { return render3d.Translate(o, off) }}
 	case 1:
 		axis, ang := vlib.RandUnit3(rng), rng.Float64()*6
 		if rng.Intn(3) == 0 {
 			axis = []C3{model3d.X(1), model3d.Y(1), model3d.Z(1)}[rng.Intn(3)]
 		}
 		rot := model3d.Rotation(axis, ang)
-		return xformStep{1, fmt.Sprintf("rotate(%v,%g)", axis, ang), rot.Apply, func(o render3d.Object) render3d.Object { return render3d.Rotate(o, axis, ang) }}
+		return xformStep{kind: 1, desc: fmt.Sprintf("rotate(%v,%g)", axis, ang), f: rot.Apply, wrap: func(o render3d.Object) render3d.Object { return render3d.Rotate(o, axis, ang) }}
 	case 2:
 		s := 0.4 + rng.Float64()*2
-		return xformStep{2, fmt.Sprintf("scale(%g)", s), func(p C3) C3 { return p.Scale(s) }, func(o render3d.Object) render3d.Object { return render3d.Scale(o, s) }}
+		if rng.Intn(3) == 0 {
+			s = -s // a point reflection: a scale factor like any other
+		}
+		return xformStep{kind: 2, desc: fmt.Sprintf("scale(%g)", s), f: func(p C3) C3 { return p.Scale(s) }, wrap: func(o render3d.Object) render3d.Object { return render3d.Scale(o, s) }, mirror: s < 0}
 	default:
 		m := &model3d.Matrix3{1 + rng.Float64(), 0.3 * rng.NormFloat64(), 0.3 * rng.NormFloat64(), 0.3 * rng.NormFloat64(), 1 + rng.Float64(), 0.3 * rng.NormFloat64(), 0.3 * rng.NormFloat64(), 0.3 * rng.NormFloat64(), 1 + rng.Float64()}
-		return xformStep{3, fmt.Sprintf("matrix%v", *m), m.MulColumn, func(o render3d.Object) render3d.Object { return render3d.MatrixMultiply(o, m) }}
+		if rng.Intn(3) == 0 {
+			// mirror one axis
+			k := rng.Intn(3)
+			m[3*k], m[3*k+1], m[3*k+2] = -m[3*k], -m[3*k+1], -m[3*k+2]
+		}
+		return xformStep{kind: 3, desc: fmt.Sprintf("matrix%v", *m), f: m.MulColumn, wrap: func(o render3d.Object) render3d.Object { return render3d.MatrixMultiply(o, m) }, mirror: m.Det() < 0}
 	}
 }
 
@@ -92,7 +102,7 @@ func objects2(r *vlib.Run) {
 		n := 1 + rng.Intn(4)
 		var obj render3d.Object = base
 		tm := mesh
-		general := false
+		general, mirrored := false, false
 		desc := ""
 		for i := 0; i < n; i++ {
 			st := randStep(rng, true)
@@ -100,8 +110,17 @@ func objects2(r *vlib.Run) {
 			tm = tm.MapCoords(st.f)
 			general = general || st.kind == 3
 			desc += st.desc + ";"
+			if st.mirror {
+				mirrored = !mirrored
+			}
 		}
 		c.Count(fmt.Sprintf("objects.chain.depth%d", n), 1)
+		if mirrored {
+			// an orientation-reversing map turns the faces' winding inside out; the image body's
+			// outward normals are those of the re-oriented faces
+			tm = tm.InvertNormals()
+			c.Count("objects.chain.orientation_reversing", 1)
+		}
 		ref := model3d.MeshToCollider(tm)
 		wit := map[string]interface{}{"chain (innermost first)": desc, "faces": mesh.NumTriangles()}
 		if mn, mx := obj.Min(), obj.Max(); mn.X > tm.Min().X+1e-7 || mn.Y > tm.Min().Y+1e-7 || mn.Z > tm.Min().Z+1e-7 || mx.X < tm.Max().X-1e-7 || mx.Y < tm.Max().Y-1e-7 || mx.Z < tm.Max().Z-1e-7 {
